@@ -302,3 +302,194 @@ def report(F, R, rule, tier, aspects, floor, default_ci=False, max_reports=6):
             R.obligations.append((rule, "%s:%s" % (a, text), False, m))
     R.floor(rule, "catalogue texts compared with the documented reading", n, floor)
     R.count("parser catalogue texts", n)
+
+
+# ---------------------------------------------------------------------------------------------------------------------
+# C08.text: parse, then partition, both evaluated from THIR, on texts with invariant prefixes
+
+PREFIXES = ["a", "ab/cd", "é/b", "a/b/c", "(?-i)photos", "(?-i)a/(?-i)b", "(?i)1/2", "(?-i)a/(?i)1", "a/(?-i)b", "\\*a", "a\\,b/c", "{a}", "{a/b}", "<a:2>",
+            "<a/:2>b", "a/[b]", "/a", "/a/b", "/(?-i)a", "..", "../a", "./a", "a/..", "愛/グ"]
+POSTFIXES = ["*", "**", "**/x", "*.rs", "(?i)*.x", "(?i){jpg,jpeg}", "?", "[ab]", "{a,b}", "<x:1,>", "(?-i)*", "$a", "**/*.(?i){jpg,jpeg}", "x*", "{a,b}/c", "(?i)b*",
+             "b(?i)c*", "*/(?-i)d"]
+
+
+def partition_texts():
+    out = []
+    for p in PREFIXES:
+        out.append(p)
+        for q in POSTFIXES:
+            out.append(p + "/" + q)
+            if not q.startswith("**"):
+                out.append(p + q)
+    for q in POSTFIXES:
+        out.append(q)
+        out.append("/" + q)
+    return sorted(set(out))
+
+
+def _expr_text(v):
+    v = strip(v)
+    if isinstance(v, Adt) and v.variant in ("Borrowed", "Owned"):
+        v = strip(v.fields["0"])
+    return _text(v)
+
+
+def partition_case(F, parse_item, err_item, part_item, part_inst, text, owned):
+    """-> None (the parser rejects the text) | {"problems": [...]} | {"unanalysable": why}"""
+    stubs = N.stubs()
+    if err_item is not None:
+        stubs[err_item.qname] = lambda I, a, fn, e: Adt("parse-error", "ParseError", {})
+    I = Interp(F, stubs, fuel=2000000)
+    cases = I.explore(lambda: I.call_item(parse_item, [text], inst=False))
+    if I.tops or len(cases) != 1:
+        return {"unanalysable": "parse: %s" % (I.tops[:1] or len(cases),)}
+    r = strip(cases[0].result)
+    if not (isinstance(r, Adt) and r.variant == "Ok"):
+        return None
+    tz = strip(r.fields["0"])
+    try:
+        spans0 = []
+        tree0 = convert(tz.fields["token"], (), spans0)
+    except (ValueError, KeyError, AttributeError) as ex:
+        return {"unanalysable": "parse result: %s" % ex}
+    if owned:
+        tz.fields["expression"] = Adt("std::borrow::Cow", "Owned", {"0": text})
+    I2 = Interp(F, fuel=2000000)
+    cases = I2.explore(lambda: I2.call_item(part_item, [tz], inst=part_inst))
+    if I2.tops or len(cases) != 1:
+        return {"unanalysable": "partition: %s" % (I2.tops[:1] or len(cases),)}
+    res = strip(cases[0].result)
+    if not (isinstance(res, Tup) and len(res.items) == 2):
+        return {"unanalysable": "partition result %r" % (res,)}
+    prefix, rest = strip(res.items[0]), strip(res.items[1])
+    try:
+        prefix = _text(prefix)
+    except ValueError:
+        return {"unanalysable": "prefix %r" % (prefix,)}
+    top0 = tree0[1]
+    span_of = {tuple(p): (s, l) for p, s, l in spans0}
+    tb = text.encode()
+    problems = []
+    if not (isinstance(rest, Adt) and rest.variant in ("Some", "None")):
+        return {"unanalysable": "postfix %r" % (rest,)}
+    if rest.variant == "None":
+        return {"problems": [], "prefix": prefix, "postfix": None}
+    tzn = strip(rest.fields["0"])
+    try:
+        new_expr = _expr_text(tzn.fields["expression"])
+        spans1 = []
+        tree1 = convert(tzn.fields["token"], (), spans1)
+    except (ValueError, KeyError, AttributeError) as ex:
+        return {"unanalysable": "postfix shape: %s" % ex}
+    nb = new_expr.encode()
+    if not tb.endswith(nb):
+        problems.append("the postfix is displayed as `%s`, which is not a suffix of `%s`" % (new_expr, text))
+    top1 = tree1[1]
+    npop = len(top0) - len(top1)
+    if npop < 0 or [strip_root(t) for t in top0[npop:]] != [strip_root(t) for t in top1]:
+        problems.append("the postfix tokens %s are not the remaining tokens of %s" % (show(tree1), show(tree0)))
+        return {"problems": problems, "prefix": prefix, "postfix": new_expr}
+    span1 = {tuple(p): (s, l) for p, s, l in spans1}
+    for i in range(len(top1)):
+        o = span_of.get((npop + i,))
+        n_ = span1.get((i,))
+        if o is None or n_ is None or not all(isinstance(x, int) for x in o + n_):
+            problems.append("token %d of the postfix has no concrete span (%r -> %r)" % (i, o, n_))
+            break
+        old = tb[o[0]:o[0] + o[1]]
+        new = nb[n_[0]:n_[0] + n_[1]] if n_[0] + n_[1] <= len(nb) else None
+        unrooted = i == 0 and top0[npop][0] == "tree" and top0[npop][1] is True and top1[0][1] is False
+        ok_ = new is not None and (new == old or (unrooted and old.endswith(new) and len(old) - len(new) == 1))
+        if not ok_:
+            problems.append("token %d of the postfix `%s` is annotated (%d, %d) = `%s`; in `%s` it was (%d, %d) = `%s`" % (
+                i, new_expr, n_[0], n_[1], "out of range" if new is None else new.decode(errors="replace"), text, o[0], o[1], old.decode(errors="replace")))
+            break
+    # what Display writes for the postfix, built again: the same tokens with the same annotations (the case flags of
+    # literals are not compared: a flag written among the popped tokens is lost for the displayed postfix, recorded as
+    # not decided under C08)
+    if not problems:
+        ev = evaluate(F, parse_item, err_item, new_expr)
+        if ev["outcome"] == "unanalysable":
+            return {"unanalysable": "re-parse of `%s`: %s" % (new_expr, ev["why"])}
+        if ev["outcome"] == "reject":
+            problems.append("the postfix is displayed as `%s`, which the parser rejects" % new_expr)
+        elif no_case(ev["tree"]) != no_case(jsonable(tree1)):
+            problems.append("the postfix is displayed as `%s`, which reads as %s; its tokens are %s" % (new_expr, show(ev["tree"]), show(jsonable(tree1))))
+        else:
+            again = {tuple(p): (s_, l_) for p, s_, l_ in ev["spans"]}
+            for p_, (s_, l_) in sorted(span1.items()):
+                if p_ == ():
+                    continue    # the annotation of the whole expression is not observable (captures are its tokens)
+                if again.get(p_) != (s_, l_):
+                    problems.append("in the postfix `%s` the token at %s is annotated (%r, %r); building the displayed text gives %r" % (new_expr, list(p_), s_, l_, again.get(p_)))
+                    break
+    return {"problems": problems, "prefix": prefix, "postfix": new_expr}
+
+
+def no_case(t):
+    if isinstance(t, (list, tuple)):
+        if t and t[0] == "lit":
+            return ["lit", t[1]]
+        return [no_case(x) for x in t]
+    return t
+
+
+def strip_root(t):
+    return ("tree", False) if t[0] == "tree" else t
+
+
+def report_partition(F, R, rule):
+    """C08.text: for texts with an invariant prefix (flags before and inside the prefix, escapes, multi-byte text, invariant
+    groups, rooted and `..` prefixes) in front of variant postfixes, the parser and Tokenized::partition are both evaluated
+    from their THIR, borrowed and owned: the expression of the postfix is a suffix of the text, its tokens are the
+    remaining tokens, and every remaining token's span delimits in the new expression the text it delimited before."""
+    parse_item = F.find("token::parse::parse", optional=True)
+    part_item = F.find("token::Tokenized::partition", optional=True)
+    if parse_item is None or part_item is None:
+        R.anchor_missing(rule, "token::parse::parse / token::Tokenized::partition")
+        return
+    insts = F.instances_of(part_item)
+    err_item = None
+    for cand in F.items.values():
+        if cand.qname.startswith("token::parse::ParseError") and cand.name == "new":
+            err_item = cand
+    import sys as _sys
+    _sys.setrecursionlimit(20000)
+    global _PG
+    _PG = (F, parse_item, err_item, part_item, (insts or [False])[0])
+    jobs = [(t, o) for t in partition_texts() for o in (False, True)]
+    import multiprocessing as mp
+    nproc = min(16, os.cpu_count() or 4)
+    with mp.get_context("fork").Pool(nproc) as pool:
+        results = pool.map(_pjob, jobs, chunksize=16)
+    n = 0
+    bad = []
+    for (text, owned), c in zip(jobs, results):
+        if c is None:
+            continue
+        n += 1
+        name = "`%s`%s" % (text, "/owned" if owned else "")
+        if "unanalysable" in c:
+            bad.append((name, "parse + partition of `%s` could not be evaluated: %s" % (text, c["unanalysable"])))
+        elif c["problems"]:
+            bad.append((name, "; ".join(c["problems"])))
+        else:
+            R.ok(rule, name, "prefix `%s`, postfix `%s`: a suffix of the text with the same token texts" % (c["prefix"], c["postfix"]), part_item.where(), sample=(n % 211 == 1))
+    bad.sort(key=lambda x: (len(x[0]), x[0]))
+    for name, msg in bad[:8]:
+        R.fail(rule, name, msg + (" [%d texts deviate; the shortest are reported]" % len(bad) if len(bad) > 8 else ""), part_item.where())
+    for name, msg in bad[8:]:
+        R.obligations.append((rule, name, False, msg))
+    R.floor(rule, "texts parsed and partitioned", n, 1500)
+
+
+_PG = None
+
+
+def _pjob(job):
+    text, owned = job
+    F, parse_item, err_item, part_item, inst = _PG
+    try:
+        return partition_case(F, parse_item, err_item, part_item, inst, text, owned)
+    except RecursionError:
+        return {"unanalysable": "recursion limit"}
